@@ -275,13 +275,16 @@ Subprocess::Subprocess(const vector<string>& cmd, int stdin_fd, int stdout_fd,
     throw runtime_error("fork failed: " + string_for_error(errno));
   }
   if (this->child_pid == 0) {
-    // in child process
-    replace_fd(stdin_fd, 0);
-    replace_fd(stdout_fd, 1);
-    replace_fd(stderr_fd, 2);
+    // in child process. Close the parent's ends of the pipes first: if the
+    // caller had some of fds 0-2 closed, the parent's ends got those numbers,
+    // and closing them after the dup2 calls would close the child's new
+    // stdout/stderr instead
     close(this->stdin_write_fd);
     close(this->stdout_read_fd);
     close(this->stderr_read_fd);
+    replace_fd(stdin_fd, 0);
+    replace_fd(stdout_fd, 1);
+    replace_fd(stderr_fd, 2);
 
     if (cwd) {
       chdir(cwd->c_str());
